@@ -401,6 +401,8 @@ class Engine:
             return st.env[n]
         if self.in_spec and n in self.spec_env:
             return self.spec_env[n]
+        if self.in_spec and n in self.contract.get('defs', {}) and not self.contract['defs'][n][0]:
+            return self.eval(ast.parse(self.contract['defs'][n][1].strip(), mode='eval').body, st)
         g = self.db.globals_for(self.key).get(n)
         if g is not None:
             return g if isinstance(g, V) else self.const(g) if isinstance(g, (int, float, str, bool)) else V(PY, py=g)
@@ -454,11 +456,69 @@ class Engine:
 
     def materialize_empty(self, v, ty, st):
         """An empty list literal gets its element type on first use."""
+        if v.ty.kind == 'Set' and v.ty.args and v.ty.args[0].kind == 'Bottom' and ty.kind == 'Set':
+            return self.new_cell(st, ty, z3.K(sort_of(ty.args[0]), z3.BoolVal(False)))
+        if v.ty.kind == 'Dict' and v.ty.args and v.ty.args[0].kind == 'Bottom' and ty.kind == 'Dict':
+            return self.new_cell(st, ty, T.dict_mk(ty, z3.K(sort_of(ty.args[0]), z3.BoolVal(False)),
+                                                   z3.K(sort_of(ty.args[0]), fresh(ty.args[1], 'dflt'))))
         if v.ty.kind == 'List' and v.ty.args[0].kind == 'Bottom':
             et = ty.args[0]
             arr = z3.K(z3.IntSort(), fresh(et, 'dflt'))
             return self.mk_list(st, et, I0, arr)
         return v
+
+    def e_Dict(self, node, st):
+        if node.keys:
+            raise Unsupported('non-empty dict literal')
+        return V(Ty('Dict', (Ty('Bottom'), Ty('Bottom'))), None, py={})
+
+    def e_Set(self, node, st):
+        vals = [self.eval(e, st) for e in node.elts]
+        et = vals[0].ty
+        term = z3.K(sort_of(et), z3.BoolVal(False))
+        for x in vals:
+            term = z3.Store(term, self.as_term(self.coerce(x, et, st), st), z3.BoolVal(True))
+        return self.new_cell(st, SetT(et), term)
+
+    def e_SetComp(self, node, st):
+        """{f(e) for e in S if c(e)}: the image of the filtered source, as a characteristic function."""
+        if len(node.generators) != 1:
+            raise Unsupported('nested set comprehension')
+        g = node.generators[0]
+        src = self.eval(g.iter, st)
+        saved = dict(st.env)
+        try:
+            if src.ty.kind == 'Set':
+                e = z3.Const(fresh_name('se'), sort_of(src.ty.args[0]))
+                dom = T.Sel(self.load(src, st), e)
+                item = self.unbox(src.ty.args[0], e, st)
+                bv = [e]
+            else:
+                m = self.iter_model(src, st)
+                if m.setlike is not None:
+                    raise Unsupported('set comprehension over this iterable')
+                i = z3.Int(fresh_name('si'))
+                dom = z3.And(0 <= i, i < m.n)
+                item = m.item(i, st)
+                bv = [i]
+            st.guards.append(dom)
+            try:
+                self.bind_target(g.target, item, st)
+                conds = [self.truth(self.eval(c, st), st) for c in g.ifs]
+                for c in conds:
+                    st.guards.append(c)
+                try:
+                    elt = self.eval(node.elt, st)
+                finally:
+                    for _ in conds:
+                        st.guards.pop()
+            finally:
+                st.guards.pop()
+        finally:
+            st.env = saved
+        x = z3.Const(fresh_name('sx'), sort_of(elt.ty))
+        body = z3.Exists(bv, z3.And(dom, *conds, self.as_term(elt, st) == x))
+        return self.new_cell(st, SetT(elt.ty), z3.Lambda([x], body))
 
     def e_JoinedStr(self, node, st):
         return V(STR, fresh(STR, 'fstr'))
@@ -540,6 +600,8 @@ class Engine:
         if kb == 'Optional':
             b = self.coerce(b, b.ty.args[0], st, 'operand')
             kb = b.ty.kind
+        if ka == 'Str' and isinstance(op, (ast.Mod, ast.Add)):
+            return V(STR, fresh(STR, 'fmt'))   # string formatting / concatenation: an opaque string
         if ka == 'Enum' and kb == 'Enum' and isinstance(op, (ast.BitAnd, ast.BitOr)):
             bits = self.db.enums[a.ty.cls].get('__bits__', 2)
             return V(a.ty, self.bitop(op, a.t, b.t, bits))
@@ -665,7 +727,8 @@ class Engine:
 
     def e_Compare(self, node, st):
         left = self.eval(node.left, st)
-        if len(node.ops) == 1 and not isinstance(node.ops[0], (ast.In, ast.NotIn, ast.Is, ast.IsNot)):
+        if len(node.ops) == 1 and not isinstance(node.ops[0], (ast.In, ast.NotIn, ast.Is, ast.IsNot)) and \
+                not isinstance(node.comparators[0], (ast.List, ast.Tuple, ast.Set)):
             right0 = self.eval(node.comparators[0], st)
             if left.ty.kind in ('Np1', 'Np2') or right0.ty.kind in ('Np1', 'Np2'):
                 return self.np_compare(node.ops[0], left, right0, st)
@@ -674,6 +737,13 @@ class Engine:
         pushed = 0
         try:
             for op, rn in zip(node.ops, node.comparators):
+                if isinstance(op, (ast.In, ast.NotIn)) and isinstance(rn, (ast.List, ast.Tuple, ast.Set)) and rn.elts:
+                    # membership in a literal: a disjunction of equalities
+                    eqs = [self.equals(left, self.eval(e, st), st) for e in rn.elts]
+                    c = z3.Or(*eqs)
+                    c = z3.Not(c) if isinstance(op, ast.NotIn) else c
+                    res.append(c)
+                    continue
                 right = self.eval(rn, st)
                 c = self.compare(op, left, right, st, node)
                 res.append(c)
@@ -743,7 +813,11 @@ class Engine:
             return And(*[self.equals(self.tuple_get(a2, i, st), self.tuple_get(b2, i, st), st)
                          for i in range(len(t.args))])
         if t.kind == 'Dict':
-            raise Unsupported('== on dict')
+            ta, tb = self.as_term(a2, st), self.as_term(b2, st)
+            k = z3.Const(fresh_name('dk'), sort_of(t.args[0]))
+            da, db_ = T.dict_dom(t, ta), T.dict_dom(t, tb)
+            return z3.ForAll([k], z3.And(T.Sel(da, k) == T.Sel(db_, k),
+                                         z3.Implies(T.Sel(da, k), T.Sel(T.dict_val(t, ta), k) == T.Sel(T.dict_val(t, tb), k))))
         return self.as_term(a2, st) == self.as_term(b2, st)
 
     def _disjoint(self, a, b):
